@@ -67,14 +67,24 @@ def run(ctx):
     s4 = [x for x in s4 if sum(1 for a in x if a["a"] == "pipe") >= 3]
     rng.shuffle(s4)
     s4 = s4[:(150 if ctx.quick else 2000)]
-    ctx.log("ServerEnv: %d + %d sampled scripts, %d scripts that cancel a waiting caller, %d scripts that overfill an answer queue" % (
-        min(n, len(all_scripts)), min(n, len(s2)), len(s3), len(s4)))
+    # second-level pipelines: calls pipelined on the answers of queued pipelined calls, and direct calls on their results as soon
+    # as those are visible (hand-written scenarios; the orders of the first-level calls vary)
+    A = lambda a, i=0, on=0, res="": dict(a=a, i=i, on=on, res=res)
+    s5 = []
+    for first in ([101, 102], [101, 102, 103], [102, 101]):
+        for ret in ("ok", "err"):
+            sc = [A("invoke", 1), A("ack", 1)] + [A("pipe", j, 1) for j in first] + [A("pipe2", 201, 101), A("return", 1, 0, ret)]
+            s5.append(sc)
+            s5.append([A("invoke", 1), A("ack", 1), A("pipe", 101, 1), A("pipe2", 201, 101), A("pipe", 102, 1), A("pipe2", 202, 102), A("return", 1, 0, ret)])
+    s5 = s5 * (3 if ctx.quick else 20)
+    ctx.log("ServerEnv: %d + %d sampled scripts, %d scripts that cancel a waiting caller, %d scripts that overfill an answer queue, %d with second-level pipelines" % (
+        min(n, len(all_scripts)), min(n, len(s2)), len(s3), len(s4), len(s5)))
     drv = gobuild.build(ctx, "srvdrv")
     total = rejected = hangs = events = 0
     kinds = {}
     for maxc in (1, 2):
         sf = ctx.path("scripts-%d.ndjson" % maxc)
-        part = chosen[(maxc - 1)::2] + (s3 if maxc == 1 else s4)
+        part = chosen[(maxc - 1)::2] + (s3 if maxc == 1 else s4 + s5)
         with open(sf, "w") as f:
             for s in part:
                 f.write(json.dumps(s) + "\n")
